@@ -187,7 +187,7 @@ Fixpoint expr_eqb (a b : expr) {struct a} : bool :=
   | _, _ => false
   end.
 
-Definition row := (string * string * nat * bool * gty * expr)%type.
+Definition row := (string * string * nat * nat * gty * expr)%type.
 
 Definition in_catalogue (r : row) : bool :=
   let '(op, kind, n, _, _, e) := r in existsb (expr_eqb e) (catalogue op kind n).
